@@ -196,6 +196,21 @@ def check_c02(prog, rep, tier, cfg):
             fw = dominating_variant_facts(prog, g, win[0].bb)
             ok &= any("get_formatting_invariant(" in f[0] and f[2] == ("None",) for f in fw)
         rep.check(ok, R, "invariant-first", "get_formatting_requirement no longer returns map_can_break(invariant) before consulting the soft rules", instance={"order": "invariant -> map_can_break | soft match only on None"})
+        # .. and no answer other than `Invalid` (no context at all) is given without having asked the invariant: an early
+        # `return MustNotBreak` for some kind of line overrides the hard breaks (before a multi-line literal, after a line comment)
+        early = []
+        for bb, i, st in g.stmts():
+            if st["k"] == "assign" and st["dst"]["l"] == 0 and not st["dst"]["p"]:
+                v = st["rv"].get("variant") if st["rv"]["k"] == "aggregate" else (st["rv"].get("op", {}).get("enum_variant") if st["rv"]["k"] == "use" else None)
+                if v == "Invalid":
+                    continue
+                if inv and not g.dominates(inv[0].bb, bb):
+                    early.append("%s at line %s" % (v or "a value", abs(st.get("line", 0))))
+        for c in g.calls():
+            if c.t["dst"]["l"] == 0 and not c.t["dst"]["p"] and inv and not g.dominates(inv[0].bb, c.bb) and c.bb != inv[0].bb:
+                early.append("result of %s" % (c.callee or "?").split("::")[-1])
+        rep.check(not early, R, "no-answer-before-the-invariant", "get_formatting_requirement answers (%s) on a path that has not consulted get_formatting_invariant: the hard break rules are overridden there"
+                  % early[:2], where="%s:%d" % (g.file, g.line), instance={"early_answers": early[:3]})
     m = prog.body(OLF + "types::DecisionRequirement::map_can_break")
     if rep.check(m is not None, R, "anchor:map_can_break", "map_can_break not found"):
         t = Table(prog, m)
